@@ -22,6 +22,10 @@ UNITS = {
     "aggb.obool": ("units/aggb.rs", "obool"),
     "aggb.bool": ("units/aggb.rs", "bool"),
     "quant": ("units/quant.rs", None),
+    "nulls": ("units/nulls.rs", None),
+    "cut.of64": ("units/cut.rs", "of64"),
+    "cut.f64": ("units/cut.rs", "f64"),
+    "cut.oi64": ("units/cut.rs", "oi64"),
     "gen": ("units/gen.rs", None),
     "parse": ("units/parse.rs", None),
     "cmp": ("units/cmp.rs", None),
@@ -145,6 +149,22 @@ PLAN["C11"] = dict(
     level="proof",
 )
 
+PLAN["C07"] = dict(
+    verus=dict(quick=["drv", "feat.of64", "cmp"], thorough=["drv", "feat.of64", "feat.f64", "cmp"]),
+    kani=dict(quick=["backend_bounded"], thorough=["backend_bounded"]),
+    level="proof",
+)
+PLAN["C08"] = dict(
+    verus=dict(quick=["nulls", "agg", "aggb.obool", "feat.of64"], thorough=["nulls", "agg", "aggb.obool", "aggb.bool", "feat.of64", "feat.f64", "quant"]),
+    kani=dict(quick=["agg_bounded", "nulls_bounded"], thorough=["agg_bounded", "nulls_bounded"]),
+    level="proof",
+)
+PLAN["C14"] = dict(
+    verus=dict(quick=["cut.of64"], thorough=["cut.of64", "cut.f64", "cut.oi64"]),
+    kani=dict(quick=["unique_bounded"], thorough=["unique_bounded"]),
+    level="proof",
+)
+
 NOT_APPLICABLE = {}
 
 
@@ -156,3 +176,69 @@ def units_for(prop, tier):
 def kani_for(prop, tier):
     p = PLAN[prop]
     return list(p["kani"].get(tier, p["kani"]["quick"]))
+
+
+# ---- what each check claims, in words (MANIFEST level text / note, evidence not_covered / assumptions).  DESIGN.md 0 and 11.
+_V = "Verus discharges every obligation generated from the functions extracted from /repo's current text, for all inputs and all iterations"
+DETAILS = {
+    "C01": dict(text=_V + ": state-describes-window invariant and textbook closed form of the 16 rolling closures (ts_v{sum,mean,var,std,skew,kurt,wma,ewm}_to in two null encodings, plain ts_* family) over the driver contract.",
+                note="A-REAL (floats as reals, no rounding); the Option-form driver contract (rolling_apply with out: Option) is assumed; fdiff not covered",
+                not_covered=["ts_fdiff / fdiff_coef", "Option-form / iterator-form driver bodies (assumed contract)"],
+                assumptions=["A-REAL", "A-ITER", "A-LEN", "A-MONO", "A-EXTRACT", "A-TOOLS", "assumed RollingDrivers contract"]),
+    "C02": dict(text=_V + ": trace and stored-exactly-once postconditions of rolling_apply_to, rolling2_apply_to, rolling_apply_idx_to, rolling2_apply_idx_to, rolling_custom_to.",
+                note="the iterator-form bodies and the Vec fast paths are covered by an assumed contract only",
+                not_covered=["rolling_apply / rolling2_apply / rolling_apply_idx iterator-form bodies", "Vec / slice fast paths of impl_vec1!"],
+                assumptions=["A-EXTRACT", "A-TOOLS"]),
+    "C03": dict(text=_V + ": cached-extreme invariants and window-function postconditions of ts_vmin/vmax/vargmin/vargmax_to (exact).",
+                note="ts_vrank, ts_vzscore, ts_vminmaxnorm are not under contract",
+                not_covered=["ts_vrank", "ts_vzscore", "ts_vminmaxnorm"], assumptions=["A-REAL (comparisons only)", "A-LEN", "A-EXTRACT", "A-TOOLS"]),
+    "C04": dict(text=_V + ": ts_vcov_to / ts_vcorr_to (pairwise-complete sums, textbook forms) and the trend family ts_vreg / vtsf / vreg_slope / vreg_intercept_to against the OLS closed forms.",
+                note="A-REAL; residual statistics and the regx family are not under contract",
+                not_covered=["ts_vreg_resid_mean / resid_std / resid_skew", "ts_vregx_* family"], assumptions=["A-REAL", "A-LEN", "A-MONO", "A-EXTRACT", "A-TOOLS"]),
+    "C05": dict(text=_V + ": one-output-per-input, null-mask (effective min_periods incl. intrinsic minimum) and every integer arithmetic site of the feat and cmp functions.",
+                note="covers the functions under contract in units feat.* and cmp", not_covered=["functions not under contract (see C01, C03, C04)"],
+                assumptions=["A-REAL", "A-LEN", "A-EXTRACT", "A-TOOLS"]),
+    "C06": dict(text=_V + ": every output is a stated function of wnd(view, window, i) only (value clauses and cache invariants of feat / cmp, positional clauses of map).",
+                note="'bit-for-bit' is equality under A-REAL", not_covered=["functions not under contract"], assumptions=["A-REAL", "A-EXTRACT", "A-TOOLS"]),
+    "C07": dict(text=_V + ": the drivers are proved against the abstract Vec1View contract (any backend satisfying it gives the same trace) and every _to function delivers the same values whether returned or written to the caller's buffer (delivered_each).  Kani (BOUNDED, 3-4 elements) checks that Vec, fixed array and VecDeque at 4 head offsets satisfy the accessor part of that contract.",
+                note="the backend part is bounded; ndarray, Polars and Arc backends are not compiled / not covered",
+                not_covered=["ndarray backend", "Polars backend", "Arc wrappers", "option view", "backend-specific fast-path overrides"],
+                assumptions=["A-REAL", "A-EXTRACT", "A-TOOLS", "assumed RollingDrivers contract"]),
+    "C08": dict(text=_V + ": all null-aware contracts are stated over vals() (NaN and None are the same null); lemmas: the two encodings of a series have the same vals(), cnt and power sums are invariant under inserting / deleting nulls.  Kani (BOUNDED, length <= 3-4) compares the two encodings and an inserted null on the real code.",
+                note="canonical nulls only (Some(NaN) excluded, DESIGN 5.4)", not_covered=["pairwise deletion beyond ts_vcov / ts_vcorr", "percentile ranks", "f32 / Option<i32> output encodings"],
+                assumptions=["A-REAL", "A-ITER", "A-MONO", "A-EXTRACT", "A-TOOLS"]),
+    "C09": dict(text=_V + ": the announced-length precondition holds at every TrustIter::new / to_trust site of the map, rank, gen units; exact size_hint of Linspace.  Kani: linspace count on the real code.",
+                note="std adaptors by assumed contract (A-ITER)", not_covered=["TrustIter sites in functions not under contract"], assumptions=["A-ITER", "A-EXTRACT", "A-TOOLS"]),
+    "C10": dict(text=_V + ": index preconditions at every uget / uset / uslice site and the write-exactly-once ghost map of the drivers, cmp, rank, quant units.",
+                note="", not_covered=["unsafe sites in functions not under contract"], assumptions=["A-SORT", "A-ITER", "A-EXTRACT", "A-TOOLS"]),
+    "C11": dict(text=_V + ": count_valid, count_none, vsum, vmean, vmean_var, vvar, vstd, vskew, vmax, vmin (via max_with / min_with), vargmax, vargmin, vany, vall equal their textbook forms over the non-null elements, incl. the null / minimum-count cases.  Kani (BOUNDED, length <= 4) as a backstop.",
+                note="A-REAL for sums and moments; fold helpers vfold / vfold_n / vapply_n by assumed contract",
+                not_covered=["vkurt", "vcov", "vcorr_pearson", "masked sum / mean", "vfirst / vlast (bounded only)", "permutation invariance as a separate lemma"],
+                assumptions=["A-REAL", "A-ITER", "A-MONO", "A-EXTRACT", "A-TOOLS"]),
+    "C12": dict(text=_V + ": vpartition / varg_partition (arity, padding, index ranges) and vquantile (errors, nulls, index ranges, order statistics for lower / higher / midpoint).",
+                note="sorting by assumed contract (A-SORT); vquantile needs the seed-retry policy (unstable query)",
+                not_covered=["linear interpolation value of vquantile", "vrank", "vpercentile_of"], assumptions=["A-SORT", "A-REAL", "A-ITER", "A-EXTRACT", "A-TOOLS"]),
+    "C13": dict(text=_V + ": positional postconditions of shift, vshift, vdiff, vpct_change (every lag incl. 0, |lag| >= len, fill values).",
+                note="", not_covered=["ffill / bfill / fill / vclip / vabs"], assumptions=["A-REAL", "A-ITER", "A-MONO", "A-EXTRACT", "A-TOOLS"]),
+    "C14": dict(text=_V + ": vcut (label-count errors, unique enclosing interval, open bounds label every value, nulls get the null label) in three instantiations, from the extracted scan loop.  Kani (BOUNDED, sorted series of length <= 5) decides vsorted_unique_idx First / Last and vsorted_unique.",
+                note="run de-duplication is bounded only", not_covered=["unbounded argument for vsorted_unique*"], assumptions=["A-REAL", "A-ITER", "A-MONO", "A-EXTRACT", "A-TOOLS"]),
+    "C16": dict(text=_V + ": into_unit (floor law, NaT), NaT predicates, calendar conversions per unit, NaT absorption of the operators; Kani: NaT and unit-identity laws over the full i64 domain.",
+                note="chrono by assumed contract (A-CHRONO)", not_covered=[], assumptions=["A-CHRONO", "A-EXTRACT", "A-TOOLS"]),
+    "C17": dict(text=_V + ": Time +- duration, DateTime +- TimeDelta, date-time difference, duration_trunc (month-free and month blocks), TimeDelta neg / add / sub / mul, inverse-law lemmas; Kani: duration group / scaling laws, component round trip.",
+                note="A-CHRONO: month shift and calendar fields are chrono's (abstract); the inverse law is stated for durations that are whole units of the date-time's resolution",
+                not_covered=["Time::from_* / Timelike getters beyond the Kani round trip", "Div<TimeDelta>"], assumptions=["A-CHRONO", "A-EXTRACT", "A-TOOLS"]),
+    "C18": dict(text=_V + ": TimeDelta::parse and its helpers never panic and return a value or an error for every string (abstract string model, unbounded length).",
+                note="the byte / UTF-8 layer of str is a model (R19)", not_covered=["chrono-delegating parsers", "strftime round trip", "term-sum value of parse"], assumptions=["string model", "A-EXTRACT", "A-TOOLS"]),
+    "C19": dict(text=_V + ": range / linspace counts and elements, Linspace next / next_back / size_hint; Kani (BOUNDED band of start / end / step) decides both step directions on the real code.",
+                note="descending range is decided by Kani only (Verus leaves signed division by a negative divisor unspecified)", not_covered=["float range count beyond A-REAL"],
+                assumptions=["A-REAL", "A-EXTRACT", "A-TOOLS"]),
+    "C20": dict(text=_V + ": half_life terminates, never overflows, returns a lag in range and the first lag whose correlation is not above one half for a monotone correlation oracle.",
+                note="correlation values are an oracle (external_body)", not_covered=["winsorize", "Spearman correlation"], assumptions=["A-REAL", "A-EXTRACT", "A-TOOLS"]),
+}
+for _k, _d in DETAILS.items():
+    _e = PLAN[_k]
+    _e.setdefault("level_text", _d["text"])
+    _e.setdefault("level_note", _d["note"])
+    _e.setdefault("not_covered", _d["not_covered"])
+    _e.setdefault("assumptions", _d["assumptions"])
+    _e.setdefault("design_ref", "DESIGN.md 0, 11")
